@@ -36,6 +36,9 @@ var c16Files = Files{
 	"p_nest.vuego":             `<div v-once><u>OW</u><b v-once>ON</b></div><i v-once>O1</i>`,
 	"p_nestfor.vuego":          `<div v-for="i in three"><div v-once><u>OW</u><p><b v-once>ON</b></p></div><i v-once>O1</i></div>`,
 	"p_nestcomp.vuego":         `<div v-for="i in three"><template include="n1.vuego"></template><template include="n2.vuego"></template></div><template include="n1.vuego"></template>`,
+	"tr.vuego":                 `<template><b v-once>OT</b><i>t</i></template><u v-once>OU</u>`,
+	"p_tmplroot.vuego":         `<template include="tr.vuego"></template><template include="tr.vuego"></template>`,
+	"p_tmplroot1.vuego":        `<div><template include="tr.vuego"></template></div>`,
 	"p_top.vuego":              `<b v-once>O1</b><p>x</p><b v-once>O2</b><b v-once>O3</b>`,
 	"p_for.vuego":              `<div v-for="i in three"><b v-once>O1</b><i>{{ i }}</i><u v-once>O2</u></div>`,
 	"p_forself.vuego":          `<b v-for="i in three" v-once>O1</b><i v-for="j in three">I</i>`,
@@ -71,6 +74,8 @@ var c16Progs = []c16Prog{
 	{"nest", "p_nest.vuego", map[string]int{"OW": 1, "ON": 1, "O1": 1}, nil},
 	{"nestfor", "p_nestfor.vuego", map[string]int{"OW": 1, "ON": 1, "O1": 1}, nil},
 	{"nestcomp", "p_nestcomp.vuego", map[string]int{"N1W": 1, "N1S": 1, "N2W": 1, "N2S": 1}, nil},
+	{"tmplroot", "p_tmplroot.vuego", map[string]int{"OT": 1, "OU": 1}, nil},
+	{"tmplroot1", "p_tmplroot1.vuego", map[string]int{"OT": 1, "OU": 1}, nil},
 	{"lay", "p_lay.vuego", map[string]int{"O1": 1, "OA": 1}, map[string]int{"OL": 1, "OL2": 1, "OO": 1, "OA": 2}},
 }
 
@@ -90,7 +95,7 @@ type c16Case struct {
 
 func (c *c16Case) Key() string { return core.KeyOf(c) }
 
-var c16Markers = []string{"OW", "ON", "N1W", "N1S", "N2W", "N2S", "O1", "O2", "O3", "OA", "OB2", "OB", "OC", "OAC", "OS", "OL2", "OL", "OO"}
+var c16Markers = []string{"OT", "OU", "OW", "ON", "N1W", "N1S", "N2W", "N2S", "O1", "O2", "O3", "OA", "OB2", "OB", "OC", "OAC", "OS", "OL2", "OL", "OO"}
 
 func c16Count(out string) map[string]int {
 	m := map[string]int{}
@@ -169,7 +174,7 @@ func init() {
 	core.Register(&core.Check{
 		ID:    "C16",
 		Level: "model_checking",
-		Rule: "17 placements of 1-4 v-once elements (v-once nested inside v-once at top level, in a loop and in two components included from a loop, top level, inside v-for, on the looped element itself, in a component included 1..3 times, in two different components, in a component included from a loop, nested components, slot content used once / twice / in a loop, v-if branches, page + two layouts each including the same component) x 7 entry points (Load+Render, RenderFile, Vue.Render, Vue.RenderFragment, RenderString/Byte/Reader) x every history of <=L renders on one long-lived engine; " +
+		Rule: "19 placements of 1-4 v-once elements (v-once nested inside v-once at top level, in a loop and in two components included from a loop, in a component whose root is a <template> tag (inside and after it), top level, inside v-for, on the looped element itself, in a component included 1..3 times, in two different components, in a component included from a loop, nested components, slot content used once / twice / in a loop, v-if branches, page + two layouts each including the same component) x 7 entry points (Load+Render, RenderFile, Vue.Render, Vue.RenderFragment, RenderString/Byte/Reader) x every history of <=L renders on one long-lived engine; " +
 			"oracle: every marked source element occurs exactly once per render (per link of a layout chain), unreached ones zero times. states = renders checked; non-trivial = all",
 		Bounds:      map[string]string{"quick": "L=2 (all ordered pairs of programs)", "thorough": "L=3 (all ordered triples)"},
 		Assumptions: []string{"markers are counted textually as >MARK< in the output"},
